@@ -35,7 +35,7 @@ def required(tier):
     b = {'source:setigen': 30, 'source:foreign': 30, 'bits:8': 30, 'bits:4': 20, 'npol:1': 20, 'npol:2': 20, 'array': 10,
          'directio:on': 20, 'directio:off': 20, 'digitize:on': 30, 'digitize:off': 20, 'multi-file-input': 20, 'length:omitted': 10,
          'length:shorter': 10, 'length:longer': 10, 'aligned-header': 3, 'subblocks>=2': 40,
-         'second-recording-flipped-digitize': 30, 'lazy-unit-noise-estimate': 40}
+         'second-recording-flipped-digitize': 30, 'lazy-unit-noise-estimate': 40, 'input:blank-block-or-dead-polarisation': 8}
     return {'buckets': b, 'counters': {'decode_blocks_compared': 200, 'gain_calls_observed': 400, 'samples_compared': 50000},
             'checks': 1000, 'nontrivial': 60}
 
@@ -87,6 +87,13 @@ def make_input(stg, c, cfg, d, R):
             scale = float(rng.uniform(0.15, 0.4)) * lim
             re = np.clip(np.rint(rng.normal(0.3, scale, size=(obsn, sz['spb'], cfg['npol']))), -lim, lim - 1)
             im = np.clip(np.rint(rng.normal(-0.2, scale, size=(obsn, sz['spb'], cfg['npol']))), -lim, lim - 1)
+            if c['_idx'] % 6 == 1 and b >= 1:
+                # a dropped block: zero-filled (zero spread), after a normal one
+                if (c['_idx'] // 6) % 2:
+                    re[...], im[...] = 0, 0
+                else:
+                    re[:, :, -1], im[:, :, -1] = 0, 0          # one dead polarisation
+                R.bucket('input:blank-block-or-dead-polarisation')
             hdr = {'BACKEND': 'FOREIGN', 'TELESCOP': 'ELSEWHERE', 'OBSERVER': 'somebody', 'SRC_NAME': 'B0329+54',
                    'NBITS': cfg['bits'], 'NPOL': 4 if cfg['npol'] == 2 else 1, 'OBSNCHAN': obsn,
                    'CHAN_BW': chan_bw * 1e-6, 'OBSBW': chan_bw * cfg['nchan'] * 1e-6,
